@@ -156,8 +156,25 @@ def fault_line(rng, kind, prog):
     if kind == "duplicate-label":
         return None
     if kind == "malformed-directive":
-        return rng.choice(["#d8 1,, 2", "#res", "#d8 (1", "#align", "#addr )", "#nosuchdirective 1", "#d8 1 2"])
+        return rng.choice(["#d8 1,, 2", "#res", "#d8 (1", "#align", "#addr )", "#nosuchdirective 1", "#d8 1 2", "#addr", "#d8", "zq_tmp =",
+                           "#d8 1 +", "#d16 2 *", "#res", "#align"])
     raise ValueError(kind)
+
+
+MISSING_OPERAND = ("#res", "#align", "#addr", "#d8", "zq_tmp =", "#d8 1 +", "#d16 2 *")
+
+
+def next_can_start_expression(text, line_no):
+    """Whether the first useful token after line `line_no` (1-based) of `text` can begin an expression: the listed
+    finding KF-C13-missing-operand (the operand parser continues on the next line) only applies then. A line that
+    starts with `#` or `}` - or the end of the file - cannot be swallowed as an operand."""
+    rest = "\n".join(text.split("\n")[line_no:])
+    rest = re.sub(r";\*.*?\*;", " ", rest, flags=re.S)
+    for line in rest.split("\n"):
+        t = line.split(";")[0].strip()
+        if t:
+            return t[0] not in "#})],=:*/%&|^<>?"
+    return False
 
 
 KINDS = ["unknown-instruction", "undefined-symbol", "out-of-range", "duplicate-label", "malformed-directive"]
@@ -278,10 +295,11 @@ def fault_case(ctx, rng, worker):
                     hit = True
             if not hit:
                 bare = re.sub(r";\*.*?\*;", "", fault_text).split(";")[0].strip()
-                missing_operand = bare in ("#res", "#align", "#addr")
+                missing_operand = bare in MISSING_OPERAND
                 on_following = any(f == ffile and l > fline for f, l, _ in seen)
                 ctx.violation("fault-location", {"kind": "first-error-elsewhere", "fault": kind,
                                                  "missing_operand_at_end_of_line": missing_operand,
+                                                 "next_line_can_start_an_expression": next_can_start_expression(text_body, line_no_in_body),
                                                  "reported_on_a_following_line": on_following}, job,
                               {"file": ffile, "line": fline, "fault_line_text": fault_text[:60]}, {"first_error_locations": seen[:4]})
             else:
